@@ -820,6 +820,21 @@ def setitem(a, key, val):
                 raise Unsupported('axis-mask assignment from array')
             tgt.update(lambda *idx: mf(idx[newax]), lambda *idx: val)
             return
+        if len(fa) == 1:
+            # a[..., idx, ...] = v  with a concrete integer index array on one axis: position t of v goes to index idx[t]
+            ax = fa[0]
+            ia = to_arr(key[ax])
+            if ia.ndim == 1 and dim_conc(ia.shape[0]):
+                ids = [_generic(ia.get(t)) for t in range(ia.shape[0])]
+                if all(isinstance(i, int) for i in ids):
+                    for t, i in enumerate(ids):
+                        k2 = tuple(i if q == ax else kk for q, kk in enumerate(key))
+                        if isinstance(val, ArrBase):
+                            vt = getitem(val, (Ellipsis, t)) if val.ndim > 1 else val.get(t)
+                        else:
+                            vt = val
+                        setitem(a, k2, vt)
+                    return
         raise Unsupported('fancy-index assignment')
     tgt = getitem(a, key)
     if not isinstance(tgt, ArrBase):
@@ -1076,7 +1091,7 @@ class _NP(object):
     def log(self, x):
         self._domain(x, 'log-domain', lambda v: sym.cmp('>', v, 0))
         return elementwise(sym.log, x, rdtype='real')
-    def log10(self, x): return elementwise(lambda a: sym.div(sym.log(a), sym.opaque_fn('ln10')), x, rdtype='real')
+    def log10(self, x): return elementwise(lambda a: sym.div(sym.log(a), sym.log(10)), x, rdtype='real')
     def power(self, x, y): return elementwise(sym.power, x, y)
     def square(self, x): return elementwise(lambda a: sym.mul(a, a), x)
     def sin(self, x): return elementwise(lambda a: trig('sin', a), x, rdtype='real')
